@@ -1,2 +1,29 @@
-(* C13 -- placeholder *)
-Theorem C13_placeholder : True. Proof. exact I. Qed.
+(* C13 -- abandoning the event loop at any event releases the socket.  Statements only.
+   In the model an application strategy may answer any event with AAbandon (break / exception in the handler /
+   generator.close(), optionally inside `with ws:`); CPython's generator finalisation is MODELLED: GeneratorExit at the
+   suspended yield, the enclosing finally blocks, finalisation of a live WebSocket.feed generator. *)
+From Coq Require Import List NArith.
+From Model Require Import Conn.
+From Proofs Require Import RunFacts.
+Import ListNotations.
+
+(* for every configuration, every application strategy (abandoning wherever and however it likes), every connect
+   outcome and every environment script: when run() is over the socket is released -- unless the script simply ran out
+   while the client was still waiting for the network *)
+Theorem C13_socket_released : forall cf app c0 cn steps,
+  k_sock c0 = false ->
+  blocked (run cf app c0 cn steps) \/ released (run cf app c0 cn steps).
+Proof. exact run_releases_socket. Qed.
+Print Assumptions C13_socket_released.
+
+(* once the main loop has been entered (the selector exists), leaving it by any path closes the selector *)
+Theorem C13_selector_closed : forall cf app steps c,
+  blocked (loop cf app steps c) \/
+  (released (loop cf app steps c) /\ exists l1 l2, k_tr (loop cf app steps c) = l1 ++ TSelClose :: l2).
+Proof. exact loop_released. Qed.
+Print Assumptions C13_selector_closed.
+
+(* every exit of the try block releases the socket, whatever the application does at the Disconnected event *)
+Theorem C13_finally : forall app c st, released (finish app c st).
+Proof. exact finish_released. Qed.
+Print Assumptions C13_finally.
